@@ -278,12 +278,44 @@ def completeness(sx, label, name, accept, extra=(), timeout_s=300, verbose=False
     facts, fits, done = sx.skolem_facts()
     def_ids = {d.get_id() for d in sx.defs}
     chks = [a for a in sx.asserts if a.get_id() not in def_ids]
-    # (i) totality of the Skolem definitions: every decomposed value fits its digits whenever the input is accepted
-    s0 = Session(label, list(sx.defs) + list(extra) + [accept], timeout_s=timeout_s, verbose=verbose)
+    # (i) totality of the Skolem definitions: every decomposed value fits its digits whenever the input is
+    # accepted. A group's fit is proved from the definitions of the OTHER groups (the circuit is a DAG, so a
+    # decomposed value never depends on its own digits).
+    s0 = Session(label, [], timeout_s=timeout_s, verbose=verbose)
     gaps = sum(1 for f in fits if f is None)
-    fit_goals = [f for f in fits if f is not None]
-    if fit_goals:
-        r0 = s0.holds(f"{name}: every split/range-checked value fits its digit width ({len(fit_goals)} groups)", z3.And(fit_goals))
+    t0 = time.time()
+    bad, unk = [], 0
+    groups = sx.skolem_groups
+    common = list(sx.defs) + list(extra) + [accept]
+    easy = z3.Solver()
+    easy.set("timeout", int(timeout_s * 1000))
+    easy.add(common)
+    for k, (own, fit) in enumerate(groups):
+        if fit is None:
+            continue
+        easy.push()
+        easy.add(z3.Not(fit))
+        r = easy.check()
+        easy.pop()
+        if r == z3.unsat:
+            continue
+        # needs other groups' definitions
+        s2 = z3.Solver()
+        s2.set("timeout", int(timeout_s * 1000))
+        s2.add(common)
+        for j, (own_j, _) in enumerate(groups):
+            if j != k:
+                s2.add(own_j)
+        s2.add(z3.Not(fit))
+        r = s2.check()
+        if r == z3.sat:
+            bad.append(k)
+        elif r != z3.unsat:
+            unk += 1
+    n_fit = sum(1 for f in fits if f is not None)
+    if n_fit:
+        s0.results.append(Result(f"{name}: every split/range-checked value fits its digit width ({n_fit} groups)", "holds",
+                                 "CEX" if bad else ("UNKNOWN" if unk else "HOLDS"), time.time() - t0))
     s = Session(label, list(sx.defs) + list(facts) + list(extra) + [accept], timeout_s=timeout_s, verbose=verbose)
     s.results += s0.results
     if gaps:
